@@ -2,80 +2,130 @@
 offline.  Corroboration: hidv/sphinx/svm.py implements the same transcription concretely and passes all 52 cases of
 upstream's tests/test_codegen.py (which the pinned suite cannot run) through hidv/sphinx/spasm_adapter.
 
-The tables are used symbolically (z3 bit-vectors of the real width) by hidv/sphinx/sem.py and by the C09/C14 lemmas.
+Encoding.  A machine word is a z3 *integer* in [0, M), M = 2**(8w); every instruction result is reduced mod M
+explicitly.  (Bit-vector encodings of the same semantics made frame-address reasoning with a symbolic frame offset take
+0.2-6 s per query; linear integer arithmetic with explicit `mod M` takes milliseconds and does not depend on w.)
+Machine arithmetic is therefore *not* treated as mathematical: wrap-around is explicit in every term.
 """
 import z3
 
-
-def bits(w):
-    return 8 * w
+NAMED_WORDS = ('r0', 'r1', 'r2', 'ap', 'fp', 'try_fp', 'defeat')
 
 
-# --- arithmetic: wrap at 8w bits -------------------------------------------------------------------------------
-
-def sdiv_floor(a, b):
-    """ASSUME: DIV=floor. signed division rounding towards minus infinity (z3's bvsdiv truncates)"""
-    q = a / b                      # bvsdiv (truncating)
-    r = z3.SRem(a, b)              # sign follows dividend
-    adjust = z3.And(r != 0, (r < 0) != (b < 0))
-    return z3.If(adjust, q - 1, q)
+def M(w):
+    return 1 << (8 * w)
 
 
-def smod_floor(a, b):
-    """ASSUME: DIV=floor. sign of the result follows the divisor"""
-    r = z3.SRem(a, b)
-    adjust = z3.And(r != 0, (r < 0) != (b < 0))
-    return z3.If(adjust, r + b, r)
+def wrap(x, m):
+    return x % m                      # z3: remainder is non-negative for a positive modulus
 
 
-def asl(a, b):
-    n = a.size()
-    return z3.If(z3.ULT(b, n), a << b, z3.BitVecVal(0, n))
+def sx(x, m):
+    """signed reading of a word in [0, M)"""
+    return z3.If(x >= m // 2, x - m, x)
 
 
-def asr(a, b):
-    n = a.size()
-    return z3.If(z3.ULT(b, n), a >> b, a >> (n - 1))      # z3 `>>` on bit-vectors is arithmetic
+def floor_div(a, b):
+    """ASSUME: DIV=floor.  floor(a/b) for b != 0 (z3's integer `/` is Euclidean: floor for b>0)"""
+    return z3.If(b > 0, a / b, (-a) / (-b))
 
 
-ARITH = {
-    'add': lambda a, b: a + b,
-    'sub': lambda a, b: a - b,
-    'mul': lambda a, b: a * b,
-    'div': sdiv_floor,
-    'mod': smod_floor,
-    'and': lambda a, b: a & b,
-    'or': lambda a, b: a | b,
-    'xor': lambda a, b: a ^ b,
-    'asl': asl,
-    'asr': asr,
-}
+def floor_mod(a, b):
+    """ASSUME: DIV=floor.  sign of the result follows the divisor"""
+    return z3.If(b > 0, a % b, -((-a) % (-b)))
 
-# uninterpreted stand-ins used in glue lemmas, where only congruence matters (DESIGN 4.3)
+
+def pow2(k, limit):
+    """2**k for an integer term k in [0, limit): an If-chain (keeps the arithmetic linear)"""
+    e = z3.IntVal(1 << (limit - 1))
+    for i in range(limit - 2, -1, -1):
+        e = z3.If(k == i, z3.IntVal(1 << i), e)
+    return e
+
+
 _UF = {}
 
 
-def uf(op, nbits):
-    key = (op, nbits)
+def uf(name, arity=2):
+    key = (name, arity)
     if key not in _UF:
-        s = z3.BitVecSort(nbits)
-        _UF[key] = z3.Function(f'isa_{op}_{nbits}', s, s, s)
+        _UF[key] = z3.Function('isa_' + name, *([z3.IntSort()] * (arity + 1)))
     return _UF[key]
 
 
-# --- conditional halts: halt iff the relation holds ----------------------------------------------------------------
-HALT_COND = {
-    'heq': lambda a, b: a == b,
-    'hne': lambda a, b: a != b,
-    'hlt': lambda a, b: a < b,          # signed
-    'hle': lambda a, b: a <= b,
-    'hgt': lambda a, b: a > b,
-    'hge': lambda a, b: a >= b,
-    'hltu': z3.ULT,
-    'hleu': z3.ULE,
-    'hgtu': z3.UGT,
-    'hgeu': z3.UGE,
-}
+def bitwise(op, a, b, nbits):
+    """and/or/xor through the bit-vector theory (only the bool-array lemmas need it on non-constant operands)"""
+    x = z3.Int2BV(a, nbits); y = z3.Int2BV(b, nbits)
+    r = {'and': x & y, 'or': x | y, 'xor': x ^ y}[op]
+    return z3.BV2Int(r, False)
+
+
+def is_const(x):
+    return z3.is_int_value(x)
+
+
+def arith(op, a, b, w, interpret=frozenset()):
+    """result word of `op [d], a, b`; a, b are integers (not necessarily reduced when op is a ring operation)"""
+    m = M(w); bits = 8 * w
+    if op == 'add': return wrap(a + b, m)
+    if op == 'sub': return wrap(a - b, m)
+    if op == 'mul':
+        if is_const(z3.simplify(a)) or is_const(z3.simplify(b)):
+            return wrap(a * b, m)             # linear
+        if 'mul' in interpret:
+            return wrap(sx(wrap(a, m), m) * sx(wrap(b, m), m), m)
+        return wrap(uf('mul')(wrap(a, m), wrap(b, m)), m)
+    a = wrap(a, m) if not _reduced(a, m) else a
+    b = wrap(b, m) if not _reduced(b, m) else b
+    if op in ('div', 'mod'):
+        if op in interpret or is_const(z3.simplify(b)):
+            sa, sb = sx(a, m), sx(b, m)
+            return wrap(floor_div(sa, sb) if op == 'div' else floor_mod(sa, sb), m)
+        return wrap(uf(op)(a, b), m)
+    if op in ('and', 'or', 'xor'):
+        bs = z3.simplify(b)
+        if op == 'and' and is_const(bs):
+            k = bs.as_long()
+            if k & (k + 1) == 0:                  # mask 2**j - 1
+                return a % (k + 1)
+        if op == 'xor' and is_const(bs) and bs.as_long() == m - 1:
+            return (m - 1) - a                    # complement
+        return bitwise(op, a, b, bits)
+    if op == 'asl':
+        bs = z3.simplify(b)
+        if is_const(bs):
+            k = bs.as_long()
+            return wrap(a * (1 << k), m) if k < bits else z3.IntVal(0)
+        return z3.If(b < bits, wrap(a * pow2(b, min(bits, 16)), m), z3.IntVal(0)) if bits <= 16 else \
+            z3.If(b < 16, wrap(a * pow2(b, 16), m), wrap(uf('asl')(a, b), m))
+    if op == 'asr':
+        bs = z3.simplify(b)
+        sa = sx(a, m)
+        if is_const(bs):
+            k = min(bs.as_long(), bits - 1)
+            return wrap(sa / (1 << k), m)         # Euclidean division by a positive constant = floor = arithmetic shift
+        e = wrap(uf('asr')(a, b), m)
+        for i in range(15, -1, -1):
+            e = z3.If(b == i, wrap(sa / (1 << i), m), e)
+        return e
+    raise ValueError(op)
+
+
+def _reduced(x, m):
+    x = z3.simplify(x)
+    return z3.is_int_value(x) and 0 <= x.as_long() < m
+
+
+def halt_cond(op, a, b, w):
+    """halt iff the relation holds; a, b reduced words"""
+    m = M(w)
+    c = op[1:]
+    if c.endswith('u'):
+        c = c[:-1]
+    else:
+        a, b = sx(a, m), sx(b, m)
+    return {'eq': a == b, 'ne': a != b, 'lt': a < b, 'le': a <= b, 'gt': a > b, 'ge': a >= b}[c]
+
 
 # --- terminal stubs of the library (proved on the real stdlib text by the C03/C05 stub lemmas) -----------------------
 TERMINAL = {
@@ -86,5 +136,3 @@ TERMINAL = {
     'out_of_bounds': ('out_of_bounds', 'error'),
     'nonlocal_preempt': ('nonlocal_preempt', 'error'),
 }
-
-NAMED_WORDS = ('r0', 'r1', 'r2', 'ap', 'fp', 'try_fp', 'defeat')
